@@ -14,6 +14,9 @@ CONSTANTS
   Hook = TRUE
   Steer = TRUE
   Emit = TRUE
+  Clamp = "min1"
+  ErrSet = {}
+  AEIgnore = "nil"
 INVARIANTS PrintBad
 VIEW View
 CHECK_DEADLOCK FALSE
